@@ -473,7 +473,7 @@ def r_regex_verbatim(ck: Checker) -> None:
         ck.incomplete("R-GRAM-EXH", None, None, "no re.compile call found in RegexMatcher (1 confirmed by hand)")
 
 
-def r_every_subtree_visited(ck: Checker) -> None:
+def r_every_subtree_visited(ck: Checker, rule: str = "R-VAR-ORDER") -> None:
     """Compiling a sub-pattern is not a pure function of its parse tree: visiting it registers the capture names it contains, and that
     registration is what rejects a capture name used twice / a variable used before its capture.  Positive pattern: a callback of the
     interpreter looks its parse tree up in a table kept on the interpreter (lark trees compare structurally) — an equal sub-pattern met
@@ -489,22 +489,26 @@ def r_every_subtree_visited(ck: Checker) -> None:
         n += 1
         t = params[0]
         hit = None
+        local_names = {y.id for y in ast.walk(st) if isinstance(y, ast.Name) and isinstance(y.ctx, ast.Store)} | {a.arg for a in st.args.args}
         for x in ast.walk(st):
-            if isinstance(x, ast.Call) and isinstance(x.func, ast.Attribute) and x.func.attr in ("get", "setdefault", "__contains__") and norm(x.func.value).startswith("self.") \
+            def persistent(e: ast.expr) -> bool:
+                # a table kept on the interpreter, or at module level (a name that is not a local of this callback)
+                return norm(e).startswith("self.") or (isinstance(e, ast.Name) and e.id not in local_names)
+            if isinstance(x, ast.Call) and isinstance(x.func, ast.Attribute) and x.func.attr in ("get", "setdefault", "__contains__") and persistent(x.func.value) \
                     and x.args and norm(x.args[0]) == t:
                 hit = x
-            elif isinstance(x, ast.Subscript) and isinstance(x.ctx, ast.Load) and norm(x.value).startswith("self.") and norm(x.slice) == t:
+            elif isinstance(x, ast.Subscript) and isinstance(x.ctx, ast.Load) and persistent(x.value) and norm(x.slice) == t:
                 hit = x
-            elif isinstance(x, ast.Compare) and len(x.ops) == 1 and isinstance(x.ops[0], (ast.In, ast.NotIn)) and norm(x.left) == t and norm(x.comparators[0]).startswith("self."):
+            elif isinstance(x, ast.Compare) and len(x.ops) == 1 and isinstance(x.ops[0], (ast.In, ast.NotIn)) and norm(x.left) == t and persistent(x.comparators[0]):
                 hit = x
         what = f"PatternDefInterpreter.{st.name}: every occurrence of a sub-pattern is visited (its captures are registered where they occur)"
         if hit is not None:
-            ck.violation("R-VAR-ORDER", (c.mod.rel, f"PatternDefInterpreter.{st.name}"), hit, what, positive=True,
+            ck.violation(rule, (c.mod.rel, f"PatternDefInterpreter.{st.name}"), hit, what, positive=True,
                          construct=f"PatternDefInterpreter.{st.name}: {norm(hit)[:50]} answers an equal parse tree from a table — the second copy of a sub-pattern is not visited and its capture names escape the duplicate check")
         else:
-            ck.holds("R-VAR-ORDER", (c.mod.rel, f"PatternDefInterpreter.{st.name}"), st, what)
+            ck.holds(rule, (c.mod.rel, f"PatternDefInterpreter.{st.name}"), st, what)
     if n < 4:
-        ck.incomplete("R-VAR-ORDER", None, None, f"only {n} callbacks of the pattern interpreter found (>= 4 confirmed by hand)")
+        ck.incomplete(rule, None, None, f"only {n} callbacks of the pattern interpreter found (>= 4 confirmed by hand)")
 
 
 def r_var_order(ck: Checker) -> None:
@@ -701,6 +705,8 @@ def run(ck: Checker) -> None:
     ck.guard("R-GRAM-EXH", lambda: r_all_names_resolved(ck))
     from .c07 import r_xp_cache_key
     ck.guard("R-NO-MEMO", lambda: r_xp_cache_key(ck, rule="R-NO-MEMO"))
+    from . import state_rules as S17b
+    ck.guard("R-NO-MEMO", lambda: S17b.r_memo_of_live_view(ck, "R-NO-MEMO", (XP, PAT, "pyoak.match.helpers")))
     from . import state_rules as S17
     ck.guard("R-NO-MEMO", lambda: S17.r_shared_defaults(ck, "R-NO-MEMO", PAT, ("MultiPatternMatcher", "PatternDefInterpreter", "NodeMatcher", "SequenceMatcher")))
     ck.guard("R-GRAM-EXH", lambda: r_unquote(ck))
